@@ -576,7 +576,11 @@ class C08(Property):
                 rec.add_cds_feature(common.dummy_cds(gene["loc"], f"g{gene['id']}"))
         except Exception as exc:  # pylint: disable=broad-except
             return {"err": err_kind(exc), "msg": str(exc)[:200]}
-        out: Dict[str, Any] = {"order": [int(c.get_name()[1:]) for c in rec.get_cds_features()], "found": []}
+        import bisect
+        feats = list(rec.get_cds_features())
+        out: Dict[str, Any] = {"order": [int(c.get_name()[1:]) for c in feats], "found": [],
+                               "bisect": [bisect.bisect_right(feats, common.dummy_cds(g["loc"], f"g{g['id']}"))
+                                          for g in case["genes"]]}
         for query in case["qs"]:
             try:
                 found = rec.get_cds_features_within_location(common.make_location(query["q"]),
@@ -820,11 +824,12 @@ class C08(Property):
         if "ok" not in model:
             return Judgement(False, True, in_scope=scope, tags=tuple(tags), detail=f"model {model} vs implementation ok")
         m = model["ok"]
-        corr = m["order"] == obs["order"] and m["found"] == obs["found"]
+        corr = m["order"] == obs["order"] and m["found"] == obs["found"] and m.get("bisect") == obs.get("bisect")
         detail = ""
         if not corr:
             bad = [i for i, (a, b) in enumerate(zip(m["found"], obs["found"])) if a != b]
             detail = (f"gene order model {m['order']} vs implementation {obs['order']}; " if m["order"] != obs["order"] else "") + \
+                (f"bisect_right indices model {m.get('bisect')} vs implementation {obs.get('bisect')}; " if m.get("bisect") != obs.get("bisect") else "") + \
                 (f"query {case['qs'][bad[0]]}: model {m['found'][bad[0]]} vs implementation {obs['found'][bad[0]]}" if bad else "")
         spec = drv["spec"]
         spec_ok = True
